@@ -34,6 +34,7 @@ template <> struct Tr<vs::Counted> {
     static long read(vs::Counted &x) { return x.value(); }
 };
 
+extern const long g_default_value; const long g_default_value = 7808;
 void won(int kind, long val) {
     long n = dsim::cell_add(SUCCESSES, 1);
     if (n != 1) dsim::fail("C01.two_winners", "a second resolution reported success (kind %d value %ld; first winner kind %ld value %ld)", kind, val, dsim::cell_get(WIN_KIND), dsim::cell_get(WIN_VAL));
@@ -41,11 +42,16 @@ void won(int kind, long val) {
     dsim::event("won", kind, val);
 }
 
-template <typename T> void observe(cocls::future<T> &f, int slot) {
+template <typename T> void observe(cocls::future<T> &f, int slot, bool through_const = false) {
     // reads the state of a resolved future the way user code does
     int kind; long val = 0;
     try {
-        if constexpr (std::is_void_v<T>) { f.value(); kind = K_VALUE; }
+        if (through_const) {      // the const overloads (a reader that only holds a const reference to the future)
+            const cocls::future<T> &cf = f;
+            if constexpr (std::is_void_v<T>) { cf.value(); kind = K_VALUE; }
+            else { using R = std::remove_cvref_t<decltype(cf.value())>; val = Tr<T>::read(const_cast<R &>(cf.value())); kind = K_VALUE; }
+        }
+        else if constexpr (std::is_void_v<T>) { f.value(); kind = K_VALUE; }
         else { val = Tr<T>::read(f.value()); kind = K_VALUE; }
     } catch (const vs::TestError &e) { kind = K_EXC; val = e.code; }
     catch (const cocls::await_canceled_exception &) { kind = K_NOVALUE; }
@@ -123,6 +129,14 @@ template <typename T> void resolver(cocls::promise<T> &p, int me, int action) {
             if (dying) won(K_VALUE, v);
         }
         break; }
+    case 10: case 11: {   // the compile-time-default variants (promise_with_default_v / _vp): integral value types only
+        if constexpr (!std::is_same_v<T, long>) { resolver<T>(p, me, 9); return; }
+        else {
+            dsim::cell_add(ATTEMPTS, 1);
+            if (action == 10) { cocls::promise_with_default_v<long, 7707L> dying(std::move(p)); if (dying) won(K_VALUE, 7707); }
+            else { cocls::promise_with_default_vp<long, &g_default_value> dying(std::move(p)); if (dying) won(K_VALUE, g_default_value); }
+        }
+        break; }
     }
 }
 
@@ -130,7 +144,7 @@ template <typename T> void run() {
     int nres = 2 + dsim::choose(3);
     int nwait = dsim::choose(3);
     int act[4], wk[2];
-    for (int i = 0; i < nres; i++) act[i] = dsim::choose(10);
+    for (int i = 0; i < nres; i++) act[i] = dsim::choose(12);
     for (int i = 0; i < nwait; i++) wk[i] = dsim::choose(4);
     dsim::plan_note("resolvers=%d actions=", nres);
     for (int i = 0; i < nres; i++) dsim::plan_note("%d", act[i]);
@@ -172,8 +186,8 @@ template <typename T> void run() {
         if (!f.ready()) dsim::fail("C01.not_resolved", "future not ready after the last promise is gone");
         if (f.pending()) dsim::fail("C01.not_resolved", "future still pending after the last promise is gone");
         long wkind = dsim::cell_get(WIN_KIND), wval = dsim::cell_get(WIN_VAL);
-        for (int rep = 0; rep < 2; rep++) {
-            observe(f, 9);
+        for (int rep = 0; rep < 3; rep++) {
+            observe(f, 9, rep == 2);
             if (dsim::cell_get(WAIT_KIND + 9) != wkind || dsim::cell_get(WAIT_VAL + 9) != wval)
                 dsim::fail("C01.result_mismatch", "final result is kind %ld value %ld, the winner supplied kind %ld value %ld (read #%d)", dsim::cell_get(WAIT_KIND + 9), dsim::cell_get(WAIT_VAL + 9), wkind, wval, rep);
         }
